@@ -16,10 +16,10 @@ CHECKS = {
         "attributes python.rs reads (and the model dataclasses are compared with that table and the constructor argument order); regions "
         "must mirror the hierarchy, nodes list exactly their signature's value/control ports, two listed ports share a link name iff an "
         "edge joins them with the (1,n)/(n,1) hyperedge rule, applied function symbols must be the callee's, loaded constants must be "
-        "inlined, every sibling order edge must appear as a hint with matching keys, metadata must be carried over, and each node's signature "
+        "inlined (the inlined term is compared with a table written from hugr-core's export_value; bodies of function constants are checked as regions of their own), every sibling order edge must appear as a hint with matching keys, metadata must be carried over, and each node's signature "
         "term must have as many inputs/outputs as the node lists (M-SIG).",
-        "Trusted: vf/props/c12.py checker, wire port tables. Term spelling of types vs hugr-core's exporter and the text/binary encodings are "
-        "out of reach (native module absent).",
+        "Trusted: vf/props/c12.py checker and term table, wire port tables. Signature / type terms of nodes are compared by arity only "
+        "(the statement is about ports, links, symbols, hints, metadata); text/binary encodings are out of reach (native module absent).",
         "DESIGN.md §3 C12",
     ),
     "C11": (
@@ -45,11 +45,11 @@ CHECKS = {
     "C13": (
         "fault injection: exactly one catalogued inconsistency is injected into a well-formed generated builder program at a chosen site and depth; oracle = the documented exception class at the faulty call (or at context exit / serialization)",
         "3000 (quick) / 100000 (thorough) injected programs over 23 inconsistency kinds (foreign wires in plain and block builders, static ports "
-        "used as values, integer wire indices, non-function callees, disagreeing / out-of-range / repeated / unbuilt cases, mismatched exit "
-        "branches, declared-output mismatches, polymorphic calls without or with wrong instantiation, incomplete ops and containers at "
+        "used as values, integer wire indices, non-function callees, disagreeing (also through add_if/add_else) / out-of-range (too large and negative) / repeated / unbuilt cases, mismatched exit "
+        "branches (branch_exit and branch(src, exit)), declared-output mismatches, polymorphic calls without or with wrong instantiation, incomplete ops and containers at "
         "serialization, untracked / out-of-range tracked indices), each kind >= 50 times at depths 0, 1 and >= 2. A run that completes and "
         "serializes, or raises another class, is a violation.",
-        "Negative case indices not injected; inside a basic block only 'source outside the enclosing CFG' is injected (the Block builder "
+        "Inside a basic block only 'source outside the enclosing CFG' is injected (the Block builder "
         "documents that relations inside a CFG are left to full validation); post-refusal HUGR state not judged.",
         "DESIGN.md §3 C13",
     ),
@@ -67,7 +67,8 @@ CHECKS = {
         "1500 (quick) / 50000 (thorough) pairs (A, B) from programs and mutation histories (B with holes, index reuse, multi-linked ports, "
         "duplicate and order links, metadata; parents at every depth of A) and 400 / 12000 builder-level inserts of standalone Dfg / Cfg / "
         "Conditional / TailLoop programs: mapping domain, injectivity, freshness; per B node op, metadata, output port count, ordered children; "
-        "link multisets with offsets; A's old nodes/links unchanged except the one new last child; B untouched; wires attached to inputs.",
+        "link multisets with offsets; A's old nodes/links unchanged except the one new last child; B untouched; wires attached to inputs. "
+        "The receiving HUGR has content of its own, the receiving builder may be a nested region, insert_hugr is also called with its default parent.",
         "Trusted: vf/props/c08.py snapshot. ParentBeforeChild refusals are not judged; metadata dict aliasing not judged.",
         "DESIGN.md §3 C08",
     ),
@@ -76,7 +77,7 @@ CHECKS = {
         "One execution per configuration of the real schema generator (fresh process) must reproduce the published strict/lax HUGR and testing "
         "schemas as JSON values modulo the neutral `additionalProperties: true`; model version strings must equal the file-name suffixes and no "
         "other schema file may exist. Supporting: hundreds (quick) / thousands (thorough) of emitted HUGR/package/extension documents and "
-        "mutations (required-key deletion incl. every top-level key systematically, unknown keys, unknown tags, wrong containers) must get the same verdict from jsonschema under the "
+        "mutations (required-key deletion incl. every top-level key systematically, unknown keys, unknown tags, wrong containers; also documents of the testing model) must get the same verdict from jsonschema under the "
         "published file and from pydantic under the same configuration.",
         "Trusted: pydantic's schema emission describing its own validation (sampled by the differential, one open known finding about strict "
         "rebuilds); jsonschema Draft 2020-12. 'For all documents' is decided by structural identity, not by sampling.",
@@ -97,8 +98,9 @@ CHECKS = {
         "Generated packages (0-4 module programs, 0-3 extensions, non-ASCII names) are encoded under JSON x zstd in {None,0,1,3,9,19,22} and "
         "decoded again through bytes and (uncompressed) string; module/extension lists must re-serialize to the same documents in order; the "
         "first ten bytes are checked against the documented layout and the payload is decoded independently. EnvelopeHeader.from_bytes and "
-        "read_envelope are swept exhaustively over all 65536 (format, flags) byte pairs, all truncations and all 2040 magic corruptions.",
-        "MODULE formats cannot be encoded here (native module absent) and are observed only on rejection paths; flag bits 1-5 unconstrained.",
+        "read_envelope are swept exhaustively over all 65536 (format, flags) byte pairs, all truncations and all 2040 magic corruptions; the "
+        "header written for every format x compression setting is compared with the documented layout and decoded back.",
+        "The payload of the MODULE formats cannot be produced here (native module absent): their header is checked, their payload only on rejection paths; flag bits 1-5 unconstrained.",
         "DESIGN.md §3 C09",
     ),
     "C05": (
@@ -107,7 +109,9 @@ CHECKS = {
         "helpers, std constants, function values), all serialized op kinds with arbitrary attributes (type params, extension deltas, "
         "descriptions, type args) are encoded, decoded through both decoder routes and re-encoded; documents re-emitted by a harness-side "
         "writer that follows hugr-core's conventions (null offsets for order edges, metadata holes, respelled sums/tuples, omitted defaults) "
-        "plus the repo's own live-version sample documents are schema-validated, loaded and re-saved and compared under a canonicaliser.",
+        "plus the repo's own live-version sample documents are schema-validated, loaded and re-saved and compared under a canonicaliser. Every "
+        "type / parameter / argument / value case additionally travels through Hugr.to_json -> load_json inside a module-level op, and decoded "
+        "values are compared attribute by attribute with an opaque-mode rebuild.",
         "Trusted: vf/gen/types.py wire forms, the canonicaliser in c05_foreign.py, the published schema. CF edges are always written with explicit "
         "offsets (a null CF offset is ambiguous in the reference reader).",
         "DESIGN.md §3 C05",
@@ -137,7 +141,7 @@ CHECKS = {
         "Every step of every history (all 87k histories of length <= 3 over a 44-step alphabet in quick, length <= 4 in thorough; thousands of "
         "random collision-heavy histories with fan-outs, parallel links, order links, leaf deletions, index reuse and insert_hugr) is applied "
         "to the real Hugr and to an 80-line model; after each step every public query (iteration, lookup, parent/children, links(), linked_ports "
-        "from both ends, link and order-link listings, port counts, handle stability) is compared and the internal shape invariant is walked; the "
+        "from both ends, has_link on present and absent pairs, link and order-link listings, port counts, metadata, the result of delete_node, handle stability) is compared and the internal shape invariant is walked; the "
         "same invariant runs as a contract around every store call of generated builder programs and of the repo's own tests.",
         "Trusted: vf/oracles/store.py model. Non-leaf deletion, empty per-port listing entries, num_incoming/num_outgoing and link order are outside the comparison.",
         "DESIGN.md §3 C04",
@@ -147,7 +151,7 @@ CHECKS = {
         "1500 (quick) / 40000 (thorough) type-directed, linearity-respecting builder programs over all six root kinds, nested to depth 3/5, "
         "covering Ext/Dom/static/order edges, partially used multi-output ops, polymorphic and row-polymorphic calls, conditionals, tail "
         "loops, five CFG shapes and every insert_* mode, plus TrackedDfg circuits (tracked indices mixed with explicit wires), are interpreted against the real builders; each emitted document is validated "
-        "against 16 rule families transcribed from hugr-core's validate.rs. A negative self-test proves every rule can fire. Held = no "
+        "against 21 rule families transcribed from hugr-core's validate.rs. A negative self-test proves every rule can fire. Held = no "
         "rule violated on any observed program.",
         "Trusted base: vf/oracles/validator.py + vf/oracles/wire.py (the `hugr validate` binary cannot be built offline), the program "
         "generator's well-formedness by construction. Not covered: runtime_reqs inference, user-defined AsExtOp classes.",
@@ -195,7 +199,8 @@ CHECKS = {
         "Tens of thousands of generated type descriptors (nested sums, function types, opaque/extension types with generated "
         "TypeDefs incl. arbitrary from-params index lists, std containers) are built with the real constructors; reported bound, "
         "every bound field in the serialized form, Array/List bounds and StaticArray acceptance are compared with a bound "
-        "computed from the descriptor alone.",
+        "computed from the descriptor alone; one extension-type object whose arguments are replaced between two uses must report and "
+        "write the bound of its current arguments.",
         "Trusted: ref_bound/wire_ty in vf/gen/types.py. Only TypeTypeArg at from-params positions; depth <= 3/5.",
         "DESIGN.md §3 C07",
     ),
